@@ -233,6 +233,11 @@ def check(ctx):
             src = cw[0][3][0] if cw else ("unknown", "no choose_weighted call")
             ctx.check(bool(cw) and derives_from_self(src, field="selectors") and cw[0][3][1] == RNG, "R06.1", "DynWeighted/chooses-among-own-selectors", short(cw[0], 3) if cw else "no choose_weighted on this path", f.at())
 
+    # zero-weight members are never used and a non-zero total never yields ZeroWeight: this rests on the exact
+    # Bernoulli::from_ratio(a_weight, checked sum) built by WeightedPair::new (C13 R13.1, re-evaluated here)
+    from . import rules_c13
+    from .rules_c12 import _Only
+    rules_c13.check(_Only(ctx, {"R13.1": "R06.2", "R13.3": "R06.2"}))
     # ---- escape hatches in ec_core ---------------------------------------
     bad = []
     n_uses = 0
